@@ -47,6 +47,12 @@ def run(repo, rep):
     rep.clause("C02-x", "the per-format NHWC tables are cut to the tensor's rank from the end (`[-shape_len:]`): a tensor of rank < 4 keeps the channel rounding of its format")
     rep.clause("C02-y", "a slice read moved into its consumer lands on the operand that read the slice: one operand index per branch of move_splitsliceread_to_consumer")
     rule_round10_geometry(repo, rep)
+    rep.clause("C02-z", "accesses to a rolling buffer wrap at the buffer's own storage shape (the storage shape of addresses_for_rolling_buffer depends on is_standard_fm)")
+    rule_rolling_buffer_tiles(repo, rep)
+    rep.clause("C02-aa", "the region index of a memory type is computed for the architecture at hand: the command modules keep no process-wide memo [rule shared with C14-a / C06-v]")
+    from . import c14 as _c14aa
+
+    rep.run_borrowed(_c14aa, {"C14-a": "C02-aa"}, repo, only_sites=("high_level_command_to_npu_op", "register_command_stream_generator", "register_command_stream_util", "npu_serialisation"))
     rule_tensor_geometry(repo, rep)
     from . import c06 as _c06u
     from . import c08 as _c08u
@@ -1161,3 +1167,30 @@ def rule_round10_geometry(repo, rep):
         wrong = [f"{nm}[{k}]" for nm, k in idx if k != want]
         rep.check(bool(idx) and not wrong, "C02-y", gsite, f"branch `{t[:60]}` stores the read window and shape at operand index {want} ({len(idx)} indexed uses)",
                   f"{wrong} in the branch of operand {want}: the other operand of the consumer gets the (larger) shape of the slice source and is read with its strides - about twice its storage")
+
+
+def rule_rolling_buffer_tiles(repo, rep):
+    """(z) Tensor.addresses_for_rolling_buffer splits an access into tiles where it crosses the end of the buffer. For a rolling buffer (not a
+    standard feature map) the crossing points are those of the buffer's own storage shape - `Shape4D(self.storage_shape)`, which is smaller
+    than the operator's shape; only a standard feature map uses the storage shape derived from the operator's shape. With the operator
+    shape for a rolling buffer no access ever wraps and rows beyond the buffer are addressed."""
+    tm = repo.mod("tensor")
+    fn = tm.func("Tensor.addresses_for_rolling_buffer")
+    site = "ethosu/vela/tensor.py:Tensor.addresses_for_rolling_buffer"
+    defs = [st for st in ast.walk(fn) if isinstance(st, ast.Assign) and str(norm(st.targets[0])) == "storage_shape_4D"]
+    if not defs:
+        raise AnalysisError("addresses_for_rolling_buffer: storage_shape_4D not found")
+    by_cond = {}
+    for st in defs:
+        cur, cond = st, None
+        while cur is not fn and cur is not None:
+            pp = tm.parents.get(cur)
+            if isinstance(pp, ast.If) and "is_standard_fm" in str(norm(pp.test)):
+                pos = cur in pp.body
+                neg = str(norm(pp.test)).startswith("not ")
+                cond = pos != neg
+            cur = pp
+        by_cond[cond] = str(norm(st.value))
+    ok = by_cond.get(False) in ("Shape4D(self.storage_shape)",) and by_cond.get(True, "").startswith("self.get_4D_storage_shape_for_shape(") and None not in by_cond
+    rep.check(ok, "C02-z", site, "tile crossings of a rolling buffer use the buffer's own storage shape; only a standard feature map uses the shape derived from the operator's",
+              f"definitions {by_cond}: a rolling buffer is addressed with the operator's (larger) shape - no access wraps at the end of the buffer, the rows behind it are read and written")
